@@ -129,6 +129,69 @@ Ext(S, d) ==
                      kw \in {k \in PairKws \ {"definitions"} : Has(S, k)}}
      ELSE {})
 
+(***************************************************************************)
+(* C20: insertion of an unsupported keyword at any schema position.        *)
+(***************************************************************************)
+UnsArgs(kw) == IF kw = "$defs" THEN {<< <<"d", Empty>> >>} ELSE {Empty, TrueS}
+UnsLeafExt(S) ==
+  UNION {{With(S, kw, a) : a \in UnsArgs(kw)} : kw \in {k \in UnsupportedKws : ~Has(S, k)}}
+RECURSIVE UnsExt(_, _)
+UnsExt(S, d) ==
+  IF IsBoolSchema(S) THEN {}
+  ELSE UnsLeafExt(S)
+    \cup (IF d > 0 THEN
+       UNION {{With(S, kw, T) : T \in UnsExt(S[kw], d - 1)} :
+                     kw \in {k \in SingleKws : Has(S, k)}}
+       \cup UNION {UNION {{With(S, kw, [S[kw] EXCEPT ![i] = T]) : T \in UnsExt(S[kw][i], d - 1)} :
+                            i \in 1..Len(S[kw])} :
+                     kw \in {k \in SeqKws : Has(S, k)}}
+       \cup UNION {UNION {{With(S, kw, [S[kw] EXCEPT ![i] = <<S[kw][i][1], T>>]) :
+                              T \in UnsExt(S[kw][i][2], d - 1)} :
+                            i \in 1..Len(S[kw])} :
+                     kw \in {k \in PairKws \ {"definitions"} : Has(S, k)}}
+     ELSE {})
+
+
+(***************************************************************************)
+(* Path-directed extension, used by -simulate: pick one schema position at *)
+(* random, then extend only there (successor sets of ~10^2 instead of the  *)
+(* ~10^4 of Ext, so deep random documents are cheap to generate).          *)
+(***************************************************************************)
+RECURSIVE Paths(_, _)
+Paths(S, d) ==
+  IF IsBoolSchema(S) THEN {}
+  ELSE {<<>>} \cup (IF d = 0 THEN {} ELSE
+     UNION {{<< <<kw, 0>> >> \o q : q \in Paths(S[kw], d - 1)} :
+               kw \in {k \in SingleKws : Has(S, k)}}
+     \cup UNION {UNION {{<< <<kw, i>> >> \o q : q \in Paths(S[kw][i], d - 1)} :
+                      i \in 1..Len(S[kw])} : kw \in {k \in SeqKws : Has(S, k)}}
+     \cup UNION {UNION {{<< <<kw, i>> >> \o q : q \in Paths(S[kw][i][2], d - 1)} :
+                      i \in 1..Len(S[kw])} :
+                 kw \in {k \in PairKws \ {"definitions"} : Has(S, k)}})
+
+RECURSIVE SubAt(_, _)
+SubAt(S, p) ==
+  IF Len(p) = 0 THEN S
+  ELSE LET kw == p[1][1]  i == p[1][2] IN
+       IF kw \in SingleKws THEN SubAt(S[kw], Tail(p))
+       ELSE IF kw \in SeqKws THEN SubAt(S[kw][i], Tail(p))
+       ELSE SubAt(S[kw][i][2], Tail(p))
+
+RECURSIVE ApplyAt(_, _, _)
+ApplyAt(S, p, T) ==
+  IF Len(p) = 0 THEN T
+  ELSE LET kw == p[1][1]  i == p[1][2] IN
+       IF kw \in SingleKws THEN With(S, kw, ApplyAt(S[kw], Tail(p), T))
+       ELSE IF kw \in SeqKws
+            THEN With(S, kw, [S[kw] EXCEPT ![i] = ApplyAt(S[kw][i], Tail(p), T)])
+       ELSE With(S, kw, [S[kw] EXCEPT ![i] = <<S[kw][i][1], ApplyAt(S[kw][i][2], Tail(p), T)>>])
+
+ExtAt(S, p, d) ==
+  LET sub == SubAt(S, p)
+      exts == {T \in LeafExt(sub) : LeafOK(T)}
+              \cup (IF Len(p) < d THEN NewSubExt(sub) ELSE {})
+  IN {ApplyAt(S, p, T) : T \in exts}
+
 (* Size: number of insertion steps that built the document                 *)
 RECURSIVE DocSize(_)
 RECURSIVE SumDoc(_)
